@@ -109,6 +109,9 @@ META = dict(
 META["rule"] += (
     " " + 'Added after the second round of seeded changes: the series is handed over in the representation a caller may hold it in (Fortran order, strided view, read-only, float32 / int64 when exact; counters input_held_as:*), and about 1 % of the single-plot cases have 129 / 200 / 257 states.')
 
+META["rule"] += (
+    " " + 'Added after the fifth round: with missing values and a non-supremum metric every complete tie-free row of a local-rate plot keeps exactly int(r(N-1)) recurrences; switches as bool / np.bool_ / 0-1; a fifth of the large cases have 513 / 515 / 1027 states.')
+
 HIST = ("diagline_dist", "vertline_dist", "white_vertline_dist")
 
 
